@@ -20,9 +20,9 @@ DEFAULT_ASSUMPTIONS = [
 ASSUMPTIONS = {}
 
 
-def vrt(tu, scenarios, bound=2, unbounded=False, race_oracle=False, workers=16, ignore=None, max_viol=None, spurious=False):
+def vrt(tu, scenarios, bound=2, unbounded=False, race_oracle=False, workers=16, ignore=None, max_viol=None, spurious=False, cache_bits=None):
     return dict(kind='vrt', tu=tu, scenarios=scenarios, bound=bound, unbounded=unbounded, race_oracle=race_oracle, workers=workers,
-                ignore=ignore or [], max_viol=max_viol, spurious=spurious)
+                ignore=ignore or [], max_viol=max_viol, spurious=spurious, cache_bits=cache_bits)
 
 
 def seq(tu, args=None, ignore=None):
@@ -149,7 +149,8 @@ def jobs(pid, tier):
         if q:
             return [seq('C09'), vrt('C09', [r'q_p1_.*', r'q_p2_c1_(block|coro)'], bound=2, workers=4)]
         return [seq('C09'), vrt('C09', [r'q_p1_.*', r'q_p2_c1_.*'], bound=3, workers=8),
-                vrt('C09', [r'q_p2_c2_.*'], bound=2, workers=16)]
+                vrt('C09', [r'q_p2_c2_.*'], bound=2, workers=16, cache_bits=25),
+                vrt('C09', [r'q_p3_.*'], bound=1, workers=16, cache_bits=25)]
     if pid == 'C12':
         if q:
             return [seq('C12'), vrt('C12', [r'sch_.*'], bound=2, workers=4)]
